@@ -137,7 +137,9 @@ type RequestedAuthnContext struct {
 
 func (sp *SAMLServiceProvider) Metadata() (*types.EntityDescriptor, error) {
 	keyDescriptors := make([]types.KeyDescriptor, 0, 2)
-	if sp.GetSigningKey() != nil {
+	// GetSigningKey only sees the deprecated fields; keys given through
+	// SetSPSigningKeyStore / SetSPKeyStore sign outgoing messages as well.
+	if sp.GetSigningKey() != nil || sp.spSigningKeyStoreOverride != nil || sp.spKeyStoreOverride != nil {
 		signingCertBytes, err := sp.GetSigningCertBytes()
 		if err != nil {
 			return nil, err
